@@ -317,11 +317,21 @@ def q_bval(v):
     return f"(VCol FN {ql(v[1])})"
 
 
-def q_case(c):
+def uses_delayed_branch(c, im):
+    """LinearDense with a non-zero maximum delay runs the einsum branch on the delay-selected currents"""
+    return c["kind"] == "dense" and bool(c["delay"]) and im is not None and im.get("ok") == 1 and len(im["syncur_shape"]) == 3
+
+
+def q_case(c, im=None):
     k = c["kind"]
     if k == "dense":
-        return (f"dense_case {qz(c['inshape'])} {qz(c['outshape'])} {F.coq_Z(c['B'])} {ql2(c['W'])} "
-                f"{qopt(None if c['b'] is None else ql(c['b']))} {qn(c['xshape'])} {ql(eff(c, c['x']))} {ql(c['r3'])}")
+        t = (f"dense_case {qz(c['inshape'])} {qz(c['outshape'])} {F.coq_Z(c['B'])} {ql2(c['W'])} "
+             f"{qopt(None if c['b'] is None else ql(c['b']))} {qn(c['xshape'])} {ql(eff(c, c['x']))} {ql(c['r3'])}")
+        if uses_delayed_branch(c, im):
+            B, I, O = im["syncur_shape"]
+            t = (f"Nd [{t}; dense_delayed_case {B} {I} {O} {ql2(c['W'])} {qopt(None if c['b'] is None else ql(c['b']))} "
+                 f"{ql(im['syncur'])}]")
+        return t
     if k == "direct":
         return (f"direct_case {qz(c['shape'])} {F.coq_Z(c['B'])} {ql(c['W'])} {qopt(None if c['b'] is None else ql(c['b']))} "
                 f"{qn(c['xshape'])} {ql(eff(c, c['x']))}")
@@ -378,6 +388,11 @@ def compare(c, im, tm):
     """returns None or a description of the first disagreement between implementation and model"""
     if im.get("ok") == -1:
         return {"harness": im.get("msg")}
+    if uses_delayed_branch(c, im):
+        tm, td = tm
+        d = same_floats(im["out"], fl(td))
+        if d is not None:
+            return {"what": "delayed (einsum) branch on the delay-selected currents", "detail": d}
     if tm[0] == 1:   # model says error
         stage, code = tm[1], tm[2]
         if im["ok"] != 0:
@@ -515,7 +530,6 @@ def oracle(c, im):
                     want = x[r * I + o] * W[o] + (b[o] if b else 0.0)
                 if not approx(im["out"][r * O + o], want):
                     return fail(k, "forward is not the documented linear map", batch=r, out=o, got=im["out"][r * O + o], want=want)
-        # delayed branch with all delays zero must be the same map
         # reshaping helpers
         if im["ls_shape"] != [B, I] or not exact(im["ls"], [float(v) for v in c["x"]]):
             return fail(k, "like_synaptic is not the row-major flattening")
@@ -673,12 +687,6 @@ def oracle(c, im):
     return None
 
 
-def delayed_zero_oracle(c, im):
-    """with a non-zero maximum delay but all learned delays zero the delayed branch must give the same map (the model term is
-    evaluated on the delay-selected currents the implementation produced)"""
-    return None
-
-
 def nontrivial(c):
     if c["kind"] == "lateral":
         return len(c["ops"]) >= 3
@@ -710,7 +718,7 @@ def run(ctx):
     if not quick:
         cases += exhaustive_conv_geometries(rng, 1200)
     impl = F.run_impl(IMPL, {"cases": cases})
-    model = F.eval_terms(ID, HEADER, [q_case(c) for c in cases], shard=(20 if quick else 60))
+    model = F.eval_terms(ID, HEADER, [q_case(c, im) for c, im in zip(cases, impl)], shard=(20 if quick else 60))
     mismatches, oracle_fail = [], []
     for c, im, tm in zip(cases, impl, model):
         if isinstance(tm, Exception):
